@@ -46,6 +46,7 @@ def oracle(script: dict, run: Any) -> List[Violation]:
     A, N, W = cfg.get("A"), cfg.get("N"), cfg.get("W")
     W_us = None if W is None else int(round(W * 1e6))
     end_t = h.events[-1][1] if h.events else 0
+    slack = SLACK_US + 50_000 * int(run.fault_counts.get("cpu_stall", 0))   # every counted CPU stall may add up to 50 ms
     for (w, gen) in h.worker_gens():
         node = h.node_of(w, gen)
         if h.crashed(w, gen):
@@ -108,9 +109,9 @@ def oracle(script: dict, run: Any) -> List[Violation]:
             all_done = max(done_times, default=0)
         cands = []
         if all_done is not None:
-            cands.append(max(t_req, all_done) + POLL_US + SLACK_US)
+            cands.append(max(t_req, all_done) + POLL_US + slack)
         if W_us is not None:
-            cands.append(t_req + POLL_US + W_us + SLACK_US)
+            cands.append(t_req + POLL_US + W_us + slack)
         if not cands:
             continue  # never-ending task and no timeout: listen() may legitimately never return
         deadline = min(cands)
@@ -140,7 +141,7 @@ def oracle(script: dict, run: Any) -> List[Violation]:
                 last_full_end = horizon
             sub = "late-return"
             if W_us is not None and A and last_full_end is not None:
-                explained = last_full_end + POLL_US + W_us + SLACK_US
+                explained = last_full_end + POLL_US + W_us + slack
                 if (t_ret is not None and t_ret <= explained) or (t_ret is None and (full_now or end_t <= explained)):
                     sub = "late-return-waiting-for-slot"
             what = "did not return" if t_ret is None else f"returned at t={t_ret}us"
